@@ -384,6 +384,34 @@ def run_table(case):
                 if have_f == func and 'merge_str_same' in feats:
                     mech = _classify_same_name(case, texts, func, args)
                 vio.append({'mech': mech, 'what': f'table says ({func}, {args!r}) but the merged node is ({have_f}, {have_a!r}); history={case["hist"]!r}; texts={texts!r}'})
+    if not vio and got[0] == 'ok' and util.sig(texts)[0] in '01234567':
+        # the same history on ONE live tree which is evaluated in place between the merges (Builder kept, sources added one by one):
+        # evaluating leaves nothing on the nodes that changes what a later merge does
+        from awesomeyaml.builder import Builder
+        from awesomeyaml.eval_context import EvalContext
+        from awesomeyaml.nodes.function import FunctionNode
+
+        def live():
+            b = Builder()
+            tree = None
+            for t in texts:
+                b.add_source(t, raw_yaml=True)
+                tree = b.build()
+                try:
+                    EvalContext().evaluate(tree)
+                except Exception:
+                    pass
+            return tree
+        lv = lib.outcome(live)
+        feats.append('live_tree_evaluated_between_merges')
+        if lv[0] == 'err':
+            vio.append({'mech': 'table-merge-fails-on-live-tree', 'what': f'history {case["hist"]!r} on {case["first"]!r}, evaluated in place after every stage: {lib.describe(lv)}; texts={texts!r}'})
+        else:
+            n = lv[1].ayns.get_child('top').ayns.get_child('f') if nest else lv[1].ayns.get_child('f')
+            have_f = str(n._func) if isinstance(n, FunctionNode) else type(n).__name__
+            have_a = {(k.ayns.native_value if hasattr(k, 'ayns') else k): v.ayns.native_value for k, v in n.ayns.named_children()} if isinstance(n, FunctionNode) else None
+            if have_f != func or util.typed(have_a) != util.typed(args):
+                vio.append({'mech': 'table-differs-after-in-place-evaluation', 'what': f'table says ({func}, {args!r}); built afresh the merged node agrees, but on a live tree evaluated in place after every stage it is ({have_f}, {have_a!r}); history={case["hist"]!r}; texts={texts!r}'})
     res = {'status': 'violation' if vio else 'ok', 'nontrivial': len(case['hist']) >= 2, 'feats': sorted(set(feats))}
     if vio:
         res['violations'] = vio
